@@ -6,8 +6,10 @@ package main
 import (
 	"context"
 	"fmt"
+	"math/rand"
 	"sort"
 	"strings"
+	"time"
 
 	"github.com/hyperjumptech/grule-rule-engine/ast"
 )
@@ -314,10 +316,46 @@ func runC08Case(c *Ctx, idx int) *CaseResult {
 		}
 		cr.set("endings", ending+":"+errClass(res.Err))
 	}
+	if idx%25 == 0 {
+		c08ClockProbe(cr)
+	}
 	if cr.Sample == nil {
 		cr.Sample = map[string]interface{}{"grl": trunc(text, 800), "history": hist, "pipeline": pipeline}
 	}
 	return cr
+}
+
+// c08ClockProbe: a value that has no variable in it (Now()) must not be remembered across calls
+// either: the time stamped by the n-th call on a reused instance is never earlier than the
+// harness's own clock reading taken just before that call (ordering only, no deadline).
+func c08ClockProbe(cr *CaseResult) {
+	lib, err := BuildLib(`rule Stamp "clock" { when IsTimeAfter(Now(), F.Tm) then F.Tm2 = Now(); Retract("Stamp"); }`)
+	if err != nil {
+		return
+	}
+	kb, err := NewInstance(lib)
+	if err != nil {
+		return
+	}
+	for call := 1; call <= 3; call++ {
+		st := GenState(rand.New(rand.NewSource(int64(call))))
+		f := st["F"].(*Fact)
+		f.Tm = time.Unix(0, 0)
+		f.Tm2 = time.Time{}
+		before := time.Now()
+		res := Run(kb, nil, st, RunCfg{MaxCycle: 3, NoSnap: true})
+		cr.Evals++
+		if res.Err != nil || res.Panic != nil {
+			return
+		}
+		if f.Tm2.Before(before) {
+			cr.violate(fmt.Sprintf("call %d on a reused instance stamped Now() = %s, which is earlier than the moment the call started (%s): a value remembered from an earlier call was used", call, f.Tm2.Format(time.RFC3339Nano), before.Format(time.RFC3339Nano)),
+				map[string]interface{}{"grl": `rule Stamp "clock" { when IsTimeAfter(Now(), F.Tm) then F.Tm2 = Now(); Retract("Stamp"); }`, "call": call})
+			return
+		}
+		time.Sleep(2 * time.Millisecond)
+	}
+	cr.inc("clock_probes")
 }
 
 func errClass(err error) string {
